@@ -19,7 +19,7 @@ from . import core, programs
 # names of the property's list ...
 PROP_NAMES = ["x.mmm", "x.ms", "x.mmm.bak", "x.transpiled.mmm", ".mmm", "mmm", "x.MMM", "x.mmm~"]
 # ... "names with spaces / dots / non-ASCII" (used in the exhaustive part)
-SPECIAL = ["a b.mmm", "a.b.mmm", "é.mmm"]
+SPECIAL = ["a b.mmm", "a.b.mmm", "é.mmm", ".cache.mmm", ".a.ms.mmm"]     # hidden names with a real extension
 # more near misses for the random stream
 EXTRA = ["x.", "x.mmm.", "..mmm", "...", "x..mmm", " .mmm", "x. mmm", "x.mmm ", "x.Mmm", "x.mm", "x.mmmm", "mmm.x",
          "日本 語.transpiled.mmm", "ü.MMM", "y.mmm", "z.mmm", "main.ms", "main.mmm", "x.mmm.mmm", "-r.mmm", "*.mmm"]
